@@ -65,7 +65,8 @@ func (g *IrreversibleBlockNumGate) ProcessBlock(blk *pbbstream.Block, obj interf
 
 	g.passed = blk.Number >= g.blockNum
 
-	if (g.blockNum == 0 || g.blockNum == 1) && blk.Number == 2 {
+	// same rule as bstream.BlockNumGate: a gate set below the first streamable block opens inclusively at that block
+	if g.blockNum < bstream.GetProtocolFirstStreamableBlock && blk.Number == bstream.GetProtocolFirstStreamableBlock {
 		g.gateType = bstream.GateInclusive
 		g.passed = true
 	}
